@@ -5,6 +5,26 @@ import os
 ROOT = os.path.dirname(os.path.dirname(os.path.abspath(__file__)))
 
 CHECKS = {
+ "C01": dict(
+    text="Full (parser level). Theorems C01_segmentation_independent (for every typed-header parser, both parser kinds, all byte strings and all segmentations: need-more-data for the first j reads, then exactly the outcome, message and framing state of the one-shot parse), C01_incremental_state_is_oneshot_state, C01_settled_is_stable, C01_effects_replay_idempotent, proved about a model that keeps the code's structure (restartable steps whose mutations are not rolled back; a body state machine with partial consumption). Tied to /repo by running extracted model and real RequestParser/ResponseParser (ASan+UBSan) on the same segmentations - every single cut and byte-by-byte for each generated message - and by a direct oracle (segmented == whole, Done exactly at the last byte) on the implementation.",
+    note="Closed under the global context. Section parameters (arbitrary deterministic functions, not axioms): typed_other (registry parsers other than Content-Length), set_cookie (Cookie::fromRaw). Completion-exactly-at-last-byte for well-formed messages is checked by the oracle on generated messages, not proved (no rendering spec yet). Trusted: extraction, driver, harness/h_parser.cc, generators.",
+    technique="Coq proof (generic restartable-step theorem + idempotent effect algebra + body state-machine merge lemmas) + extracted-model/implementation differential correspondence over exhaustive single cuts",
+    design="§2 C01"),
+ "C03": dict(
+    text="Partial. Theorems C03_parser_safe / C03_parse_step_safe (every reachable parser state keeps the cursor inside the buffer, chunk progress within the chunk - no negative advance -, body made of consumed bytes), C03_chunk_loop_terminates, C03_reservations_bounded, C03_buffer_bounded, C03_handler_total, for all inputs and segmentations. Residue: undefined behaviour inside libc/libstdc++ and the value parsers not yet modelled is only observed by the ASan+UBSan+vector-annotation harness on a malformed stream (supporting validation).",
+    note="Closed under the global context. Trusted as C01, plus the sanitizers as oracle for memory errors on sampled inputs; server-level liveness not exercised in the quick tier.",
+    technique="Coq proof of safety invariants over the parser model + sanitizer-instrumented differential correspondence on malformed inputs",
+    design="§2 C03"),
+ "C04": dict(
+    text="Full (request side; response side by correspondence). Theorems C04_reset_is_init, C04_completed_message_leaves_fresh_parser, C04_independent (any sequence of completed messages on one connection is handled exactly as on fresh parsers). Tied to /repo by sequence-mode runs on ONE parser object against fresh parsers, all predecessor x successor kinds incl. messages abandoned in mid-body.",
+    note="Closed under the global context. reset is modelled field by field from ParserBase::reset/Step::reset/ParserImpl<Request>::reset; the response parser's move-out + reset is checked by correspondence only. Read-aligned messages (no pipelining), as scoped in DESIGN.md.",
+    technique="Coq proof (reset refines to the initial state; induction over message sequences) + sequence-mode differential correspondence",
+    design="§2 C04"),
+ "C14": dict(
+    text="Partial. Theorems C14_size_exact (a request within the limit is never refused and is delivered at its last read; over the limit the first read crossing it is answered 413 and the handler is never reached - for every segmentation), C14_timeout_rule and corollaries (decision rule of the idle scan). Tied to /repo at parser level with limits len-2..len+1 at every cut. Residue: wall-clock behaviour of the 500 ms scan and option propagation are not exercised in the quick tier.",
+    note="Closed under the global context. The hypothesis 'every proper prefix at a read boundary is incomplete' is discharged by the oracle on generated well-formed requests (Done exactly at the last byte).",
+    technique="Coq proof over the onInput/feed model + differential correspondence at limit-1/limit/limit+1 for every cut",
+    design="§2 C14"),
  "C20": dict(
     text="Full. Theorems C20_roundtrip (decode (encode bs) = bs for every byte string), C20_canonical (encode = independent RFC 4648 bit-regrouping spec), C20_encoded_size, C20_basic / C20_basic_colon_rejected (Authorization Basic accessors), C20_decode_safe (any text: error or bounded output, the size walk never passes the terminator) proved in Coq about an executable model of base64.cc and the Authorization accessors; the model is tied to /repo by running the extracted model and the real classes (ASan+UBSan build of the working tree) on the same inputs and diffing.",
     note="Closed under the global context (no axioms). Trusted: Coq kernel + vm_compute (finite sweeps over 64/256/65536 values lifted by lemmas), ExtrOcamlBasic extraction, OCaml driver, harness/h_base64.cc, generator; std::string NUL terminator at index size().",
